@@ -37,6 +37,12 @@ def classify(diag):
         return 'ensures', prim, lab('failed this') or prim
     if 'precondition not satisfied' in msg:
         clause = lab('failed precondition') or prim
+        st = ((prim or {}).get('text') or [{}])[0].get('text', '')
+        hl = st[max((prim['text'][0].get('highlight_start', 1) - 1), 0):prim['text'][0].get('highlight_end', len(st))] if prim and prim.get('text') else st
+        if re.search(r'\.(unwrap|expect)\s*\(|\b(panic|unreachable|unimplemented|todo)!', hl):
+            return 'panic-unreachable', prim, clause
+        if clause is prim and re.search(r'\w\s*\[[^\]]*\]', hl):
+            return 'index', prim, clause
         return 'requires@callsite', prim, clause
     if 'arithmetic underflow/overflow' in msg or 'possible arithmetic' in msg or 'overflow' in msg and 'possible' in msg:
         return 'overflow', prim, prim
